@@ -90,6 +90,9 @@ func (spc *realStatefulPodControl) CreateStatefulPod(set *apps.StatefulSet, pod 
 
 func (spc *realStatefulPodControl) UpdateStatefulPod(set *apps.StatefulSet, pod *v1.Pod) error {
 	attemptedUpdate := false
+	// updatePending is set while an update has failed and the Pod could not be read again from the lister: the
+	// retry then has to send the update again, our own (already modified) copy cannot tell that nothing is left to do
+	updatePending := false
 	err := retry.RetryOnConflict(retry.DefaultBackoff, func() error {
 		// assume the Pod is consistent
 		consistent := true
@@ -109,7 +112,7 @@ func (spc *realStatefulPodControl) UpdateStatefulPod(set *apps.StatefulSet, pod 
 			}
 		}
 		// if the Pod is not dirty, do nothing
-		if consistent {
+		if consistent && !updatePending {
 			return nil
 		}
 
@@ -123,8 +126,10 @@ func (spc *realStatefulPodControl) UpdateStatefulPod(set *apps.StatefulSet, pod 
 		if updated, err := spc.podLister.Pods(set.Namespace).Get(pod.Name); err == nil {
 			// make a copy so we don't mutate the shared cache
 			pod = updated.DeepCopy()
+			updatePending = false
 		} else {
 			utilruntime.HandleError(fmt.Errorf("error getting updated Pod %s/%s from lister: %v", set.Namespace, pod.Name, err))
+			updatePending = true
 		}
 
 		return updateErr
